@@ -9,7 +9,7 @@ ROOT = os.path.dirname(os.path.dirname(os.path.abspath(__file__)))
 CHECKS = {
  "C01": ("exploration",
          "bounded exhaustive enumeration of strings and token sequences over the full token alphabet through both parse entry points, with a parser progress monitor and process-level death/stall pinpointing",
-         "Every string of <= 5 (thorough 6) atoms over nine 14-symbol alphabets of critical atoms, every sequence of <= 3 (thorough 4) tokens over the token alphabet derived from SyntaxKind at run time (92 lexer-producible kinds plus text-dependent and malformed variants; rendered with blanks, tightly, and with an empty comment between all lexemes), thorough also every 5-token sequence at parser level (6.5e9), every model leaf statement under single-token faults (each token deleted, duplicated, replaced by each of 11 offenders (one of them a character the lexer does not know)), a long program cut after every token count, and 46 scaling families up to nesting 256 / 64 KiB are pushed through SourceFile::parse and SourceFile::parse_check_lex under catch_unwind in worker processes. A panic, failed assertion, overflow (strict profile), a parser loop that stops consuming (hook), a dead or stalled worker, or work above a frozen constant per token is a violation. Exhaustive within the bounds, so every grammar loop meets every token kind as the offending token by construction.",
+         "Every string of <= 5 (thorough 6) atoms over eleven 14-symbol alphabets of critical atoms, every sequence of <= 3 (thorough 4) tokens over the token alphabet derived from SyntaxKind at run time (92 lexer-producible kinds plus text-dependent and malformed variants; rendered with blanks, tightly, and with an empty comment between all lexemes), thorough also every 5-token sequence at parser level (6.5e9), every model leaf statement under single-token faults (each token deleted, duplicated, replaced by each of 11 offenders (one of them a character the lexer does not know)), a long program cut after every token count, and 46 scaling families up to nesting 256 / 64 KiB are pushed through SourceFile::parse and SourceFile::parse_check_lex under catch_unwind in worker processes. A panic, failed assertion, overflow (strict profile), a parser loop that stops consuming (hook), a dead or stalled worker, or work above a frozen constant per token is a violation. Exhaustive within the bounds, so every grammar loop meets every token kind as the offending token by construction.",
          "Bounds: see evidence (lengths, nesting 256, 64 KiB). Strict build profile (debug assertions, overflow checks). Hook oq3_verif counts look-aheads/events. Four genuine defects found this way were repaired by fix: commits (known_findings.jsonl, fixed entries).",
          "DESIGN.md section 7, C01"),
  "C02": ("exploration",
@@ -74,7 +74,7 @@ CHECKS = {
          "DESIGN.md section 7, C13"),
  "C14": ("exploration",
          "bounded exhaustive enumeration of input strings over critical alphabets, invariant oracle on every one",
-         "Every string of at most 5 (thorough: 6-7) symbols over nine 14-symbol alphabets of lexically critical atoms is lexed by the real lexer and by LexedStr; on each the partition invariants (non-zero lengths, character boundaries, suffix offsets, lengths summing to the input, strictly increasing offsets, slicing never fails, two runs equal) are checked. Exhaustive within the bound, so every lexer shortcut reachable with <= 7 critical atoms is hit by construction rather than by luck.",
+         "Every string of at most 5 (thorough: 6-7) symbols over eleven 14-symbol alphabets of lexically critical atoms is lexed by the real lexer and by LexedStr; on each the partition invariants (non-zero lengths, character boundaries, suffix offsets, lengths summing to the input, strictly increasing offsets, slicing never fails, two runs equal) are checked. Exhaustive within the bound, so every lexer shortcut reachable with <= 7 critical atoms is hit by construction rather than by luck.",
          "Nothing is claimed for strings beyond the bound or characters outside the alphabets. Trusted: rustc, the harness.",
          "DESIGN.md section 7, C14"),
  "C15": ("exploration",
@@ -99,7 +99,7 @@ CHECKS = {
          "DESIGN.md section 7, C18"),
  "C19": ("model_checking",
          "explicit-state exploration of all operation histories on the real SymbolTable, lock-step comparison with a reference stack of maps",
-         "All histories of length <= 7 (thorough: <= 9, 4.8e8) over the nine operations of the statement, plus a second alphabet (lookup-or-bind, gate and hardware-qubit bindings) and all short histories from 14 systematic non-initial states (deep stacks, large global and large non-global scopes, scopes that were filled and exited), are executed on the real SymbolTable (cloned at branch points); after every operation the result and the full observation vector (look-ups, scope size, depth, every id ever issued, gate and hardware-qubit listings) are compared with the reference model. Reports reference states, transitions and traces executed; every trace runs on the implementation.",
+         "All histories of length <= 7 (thorough: <= 9, 4.8e8) over the nine operations of the statement, plus a second alphabet (lookup-or-bind, gate and hardware-qubit bindings) and all short histories from 16 systematic other start states (deep stacks, large global and large non-global scopes, scopes that were filled and exited, tables built through Default), are executed on the real SymbolTable (cloned at branch points); after every operation the result and the full observation vector (look-ups, scope size, depth, every id ever issued, gate and hardware-qubit listings) are compared with the reference model. Reports reference states, transitions and traces executed; every trace runs on the implementation.",
          "Hook oq3_verif gives access to enter_scope and the scope depth. Histories beyond the bound are covered only as suffixes of deep/large start states.",
          "DESIGN.md section 7, C19"),
  "C20": ("exploration",
